@@ -18,6 +18,11 @@ class TaskError(Exception):
         self.fid = fid
 
 
+class TaskTypeError(TaskError, TypeError):
+    """the same failure, but of a built-in kind that calling conventions use as well: a reader that fails with a TypeError
+    has still been called - once"""
+
+
 def make_handler(fail_ids, reads):
     from typhon.files.handlers.common import FileHandler
 
@@ -26,7 +31,7 @@ def make_handler(fail_ids, reads):
             fid = int(f.read())
         reads.append(fid)
         if fid in fail_ids:
-            raise TaskError(fid)
+            raise (TaskTypeError if fid % 2 == 0 else TaskError)(fid)
         return fid
     return FileHandler(reader=reader)
 
